@@ -7,8 +7,10 @@
    What could break this is process-wide state: module-level names, class attributes.  A thread's evaluation is modelled as
    the sequence of its accesses to such shared cells, RECORDED from the real code at Python-line granularity:
         Progs[t] = << [r |-> cells read by the line, w |-> cells written by the line], ... >>
+        (v: the values written, parallel to w, as recorded identity / content fingerprints)
    Step(t) performs thread t's next line atomically.  Interference = a thread reads a cell it has written during this
-   evaluation and finds another thread's value.  TLC explores every interleaving of the recorded programs. *)
+   run and finds a value that is not the one it wrote (a write of the same value by another thread is harmless).
+   TLC explores every interleaving of the recorded programs. *)
 EXTENDS Integers, Sequences, FiniteSets, TLC, Json, IOUtils
 Progs == JsonDeserialize(IOEnv.PROG_FILE)          \* sequence (one per thread) of sequences of steps
 Threads == 1..Len(Progs)
@@ -16,18 +18,26 @@ RECURSIVE CellsOf(_)
 CellsOf(p) == IF p = <<>> THEN {} ELSE { p[1].r[i] : i \in 1..Len(p[1].r) } \cup { p[1].w[i] : i \in 1..Len(p[1].w) } \cup CellsOf(Tail(p))
 Cells == UNION { CellsOf(Progs[t]) : t \in Threads }
 ToSet(s) == { s[i] : i \in 1..Len(s) }
-VARIABLES pc, last, wrote, bad
-vars == <<pc, last, wrote, bad>>
+VARIABLES pc, val, mine, bad
+vars == <<pc, val, mine, bad>>
+\* val[c]: the value currently in cell c (as recorded: an identity / content fingerprint; "-" = what it held before)
+\* mine[t]: what thread t itself last wrote into each cell it has written (a function on the cells it wrote)
 Init == /\ pc = [t \in Threads |-> 1]
-        /\ last = [c \in Cells |-> 0]
-        /\ wrote = [t \in Threads |-> {}]
+        /\ val = [c \in Cells |-> "-"]
+        /\ mine = [t \in Threads |-> <<>>]
         /\ bad = <<>>
+Has(f, c) == \E i \in 1..Len(f) : f[i][1] = c
+Get(f, c) == f[CHOOSE i \in 1..Len(f) : f[i][1] = c][2]
+Put(f, c, v) == IF Has(f, c) THEN [i \in 1..Len(f) |-> IF f[i][1] = c THEN <<c, v>> ELSE f[i]] ELSE Append(f, <<c, v>>)
+RECURSIVE PutAll(_,_,_)
+PutAll(f, w, v) == IF w = <<>> THEN f ELSE PutAll(Put(f, w[1], v[1]), Tail(w), Tail(v))
+Foreign(t, c) == Has(mine[t], c) /\ val[c] # Get(mine[t], c)        \* t wrote c and now finds a value that is not the one it wrote
 Step(t) == /\ pc[t] <= Len(Progs[t])
-           /\ LET s == Progs[t][pc[t]]  R == ToSet(s.r)  W == ToSet(s.w) IN
-              /\ bad' = IF bad = <<>> /\ \E c \in R : c \in wrote[t] /\ last[c] # t
-                        THEN <<t, pc[t], CHOOSE c \in R : c \in wrote[t] /\ last[c] # t>> ELSE bad
-              /\ last' = [c \in Cells |-> IF c \in W THEN t ELSE last[c]]
-              /\ wrote' = [wrote EXCEPT ![t] = @ \cup W]
+           /\ LET s == Progs[t][pc[t]]  R == ToSet(s.r) IN
+              /\ bad' = IF bad = <<>> /\ \E c \in R : Foreign(t, c)
+                        THEN <<t, pc[t], CHOOSE c \in R : Foreign(t, c)>> ELSE bad
+              /\ val' = [c \in Cells |-> IF \E i \in 1..Len(s.w) : s.w[i] = c THEN s.v[CHOOSE i \in 1..Len(s.w) : s.w[i] = c] ELSE val[c]]
+              /\ mine' = [mine EXCEPT ![t] = PutAll(@, s.w, s.v)]
            /\ pc' = [pc EXCEPT ![t] = @ + 1]
 Next == \E t \in Threads : Step(t)
 Spec == Init /\ [][Next]_vars
